@@ -3,7 +3,8 @@
 From Base Require Import Prelude Sx Json JsonText Rules Base64.
 From Gen Require Import RoomRules.
 From C04 Require Import Model Spec.
-From C05 Require Import Model Spec Proofs.
+From C05 Require Import Model Spec Proofs SourceTie.
+From Gen Require Import SigConsts.
 
 (** The content hash is the hash of the canonical JSON of the event without `unsigned`,
     `signatures` and `hashes`, refused exactly when that string exceeds 65535 bytes. *)
@@ -82,3 +83,17 @@ Theorem C05_covered_change_changes_preimage :
 Proof. exact covered_change_changes_preimage. Qed.
 Eval compute in "PA:C05_covered_change_changes_preimage"%string.
 Print Assumptions C05_covered_change_changes_preimage.
+
+(** The size limit, the members left out of each hash and the place of the size check are those of
+    the source as it is now (regenerated from functions.rs on every run): the model above is about
+    these constants. *)
+Theorem C05_model_constants_are_the_sources :
+  src_max_pdu_bytes = max_pdu_bytes /\
+  src_content_hash_fields = [k_hashes; k_signatures; k_unsigned] /\
+  src_reference_hash_fields = [k_signatures; k_unsigned] /\
+  src_content_hash_refuses_above_only = true /\
+  src_reference_hash_refuses_above_only = true /\
+  src_helper_size_checked = false.
+Proof. exact source_constants. Qed.
+Eval compute in "PA:C05_model_constants_are_the_sources"%string.
+Print Assumptions C05_model_constants_are_the_sources.
